@@ -239,7 +239,12 @@ pub fn run_once(program: &Program, ev: &J, meta: &J, schedule: &[usize], mode: F
     let trace = verif::stop_trace();
     let tlog = target.log.take();
 
-    let mut events = vec![json!({"e": "start", "ev": ev, "meta": meta})];
+    let mode_s = match mode {
+        FaultMode::None => "plain",
+        FaultMode::Fault => "fault",
+        FaultMode::Skip => "skip",
+    };
+    let mut events = vec![json!({"e": "start", "ev": ev, "meta": meta, "mode": mode_s, "sched": schedule})];
     let mut cur_vars: Vec<(String, Value)> = vec![];
     let mut ti = 0usize;
     for (i, e) in trace.iter().enumerate() {
